@@ -277,6 +277,50 @@ class Derived:
         self.fn = fn
 
 
+class MListOf(Ty):
+    """A *mutable* list of symbolic length whose elements are ints / bools / strings or tuples of these
+    (pyvc.mlist.MList): results accumulated in loops, out-parameters.  In `M.loop(... modifies=...)` the
+    list is havocked in place."""
+
+    def __init__(self, elem):
+        self.elem = elem
+
+    def shape(self):
+        return _mshape(self.elem)
+
+    def make(self, interp, name):
+        from .mlist import MList
+        m = MList(interp, interp.st.fresh_name(name), self.shape())
+        n = interp.st.fresh_int(name + '.len')
+        interp.st.assume(n >= 0)
+        m.length = n
+        return m
+
+
+def _mshape(ty):
+    if isinstance(ty, FixedList):
+        return ('tuple', tuple(_mshape(t) for t in ty.elems))
+    if isinstance(ty, _Int):
+        return ('int',)
+    if isinstance(ty, _Bool):
+        return ('bool',)
+    if isinstance(ty, _Str):
+        return ('str',)
+    raise Unsupported('MListOf element type %r' % (ty,))
+
+
+class IterOf(Ty):
+    """An iterator over a sequence of symbolic length (e.g. the lines of a file), positioned at its start.
+    In clauses: `it.xs` is the underlying sequence, `it.pos` the number of items consumed so far."""
+
+    def __init__(self, elem):
+        self.elem = elem
+
+    def make(self, interp, name):
+        from .models import SIter
+        return SIter(ListOf(self.elem).make(interp, name), 0)
+
+
 class FixedList(Ty):
     def __init__(self, *elems, as_tuple=False):
         self.elems = elems
@@ -315,7 +359,7 @@ def make_indexed(interp, ty, uid, idx_term, prefix=()):
     ``prefix``: index terms of the owner when the list is itself an attribute of an indexed object."""
     st = interp.st
     idx = tuple(prefix) + (idx_term,)
-    sorts = [z3.IntSort()] * len(idx)
+    sorts = [x.sort() if hasattr(x, "sort") else z3.IntSort() for x in idx]
     if isinstance(ty, _Int):
         f = z3.Function(uid + '[]', *(sorts + [z3.IntSort()]))
         t = f(*idx)
@@ -335,6 +379,14 @@ def make_indexed(interp, ty, uid, idx_term, prefix=()):
         return new_opaque(interp, iface, uid + '[]', index=idx)
     if isinstance(ty, Opaq):
         return OpaqueVal('%s[%s]' % (uid, ','.join(str(z3.simplify(t)) for t in idx)))
+    if isinstance(ty, FixedList):
+        vals = [make_indexed(interp, t, '%s.%d' % (uid, i), idx_term, prefix) for i, t in enumerate(ty.elems)]
+        return tuple(vals) if ty.as_tuple else vals
+    if isinstance(ty, Opt):
+        f = z3.Function(uid + '[].is_none', *(sorts + [z3.BoolSort()]))
+        return SOpt(f(*idx), make_indexed(interp, ty.inner, uid, idx_term, prefix))
+    if isinstance(ty, Const):
+        return ty.value
     raise Unsupported('indexed element of type %r' % (ty,))
 
 
@@ -408,7 +460,7 @@ def new_opaque(interp, iface, name, index=(), preset=None, _is_id=False):
     if getattr(iface, 'by_id', False) and not _is_id:
         # objects identified by an integer id (ghost address): a fresh id, or a function of the owner's index
         if index:
-            idt = z3.Function(name + '.id', *([z3.IntSort()] * len(index) + [z3.IntSort()]))(*index)
+            idt = z3.Function(name + ".id", *([x.sort() for x in index] + [z3.IntSort()]))(*index)
         else:
             idt = st.fresh_int(name + '.id')
         name, index = universe_of(iface), (idt,)
@@ -454,7 +506,7 @@ def _indexed_scalar(interp, o, name, ty):
     idx = o._pv_index
     st = interp.st
     base = '%s.%s' % (o._pv_uid, name)
-    sorts = [z3.IntSort()] * len(idx)
+    sorts = [x.sort() for x in idx]
     if isinstance(ty, _Int):
         t = z3.Function(base, *(sorts + [z3.IntSort()]))(*idx)
         if ty.lo is not None:
@@ -693,28 +745,39 @@ def call_opaque_method(interp, o, name, m, args, kwargs):
                 st.emit(m.event + ':raised', o, exc)
             raise PyRaise(exc)
     if m.pure:
+        flat = []
+        for a in args:
+            if isinstance(a, tuple) and all(isinstance(x, (SInt, SBool, SStr, int, str, bool)) for x in a):
+                flat.extend(a)
+            else:
+                flat.append(a)
+        args = flat
         terms = _pure_arg_terms(interp, args)
+        scalar_args = all(isinstance(a, (SInt, SBool, SStr, int, str, bool)) for a in args)
         if terms is not None and isinstance(m.returns, (_Int, _Bool, _Str)):
             # a ghost function of (object, arguments): scalars, by-id objects (their id), symbolic maps (their arrays)
-            sorts = [z3.IntSort()] * len(o._pv_index) + [t.sort() for t in terms]
+            sorts = [x.sort() for x in o._pv_index] + [t.sort() for t in terms]
             rs = {_Int: z3.IntSort(), _Bool: z3.BoolSort(), _Str: z3.StringSort()}[type(m.returns)]
             f = z3.Function('%s.%s()' % (o._pv_uid, name), *(sorts + [rs]))
             r = wrap(f(*(list(o._pv_index) + terms)))
             if isinstance(r, SInt) and m.returns.lo is not None:
                 st.assume(r.t >= m.returns.lo)
-        elif o._pv_index and not args and m.returns is not None:
-            # result of a pure zero-argument method of an indexed object: a function of the index
-            key = ('__call__', name, ())
-            if key in o._pv_attrs:
-                return o._pv_attrs[key]
-            r = _indexed_scalar(interp, o, name + '()', m.returns)
-            o._pv_attrs[key] = r
         else:
             key = ('__call__', name, tuple(z3.simplify(to_z3(a)).sexpr() if isinstance(a, (Sym, int, str, bool))
                                             and not isinstance(a, (SOpt, SChoice, SList)) else id(a) for a in args))
             if key in o._pv_attrs:
                 return o._pv_attrs[key]
-            r = m.returns.make(interp, '%s.%s()' % (o._pv_uid, name)) if m.returns is not None else None
+            if o._pv_index and not args and m.returns is not None and not isinstance(m.returns, Iface):
+                # result of a pure zero-argument method of an indexed object: a function of the index
+                r = _indexed_scalar(interp, o, name + '()', m.returns)
+            elif scalar_args and isinstance(m.returns, Iface) and (args or o._pv_index):
+                # structured result of a pure method: an opaque object indexed by (object index, arguments),
+                # i.e. its attributes are functions of the arguments
+                iface = m.returns.iface() if isinstance(m.returns.iface, types.FunctionType) else m.returns.iface
+                r = new_opaque(interp, iface, '%s.%s()' % (o._pv_uid, name),
+                               index=tuple(o._pv_index) + tuple(to_z3(a) for a in args))
+            else:
+                r = m.returns.make(interp, '%s.%s()' % (o._pv_uid, name)) if m.returns is not None else None
             o._pv_attrs[key] = r
     else:
         r = m.returns.make(interp, '%s.%s()' % (o._pv_uid, name)) if m.returns is not None else None
@@ -747,7 +810,7 @@ class Contract:
     def __init__(self, qname, params=None, ghosts=None, requires=None, returns=None, ensures=None,
                  raises=None, may_raise=(), raises_only=None, modifies=None, props=(), setup=None,
                  old=None, pure_result=False, notes='', concretize=None, replay=None, trusted=False,
-                 cover=True, inline=False, event=None):
+                 cover=True, inline=False, event=None, yields=None):
         self.qname = qname
         self.params = params or {}
         self.ghosts = ghosts or {}
@@ -765,6 +828,7 @@ class Contract:
         self.replay = replay
         self.trusted = trusted              # True: assumed contract (not verified); listed in evidence
         self.cover = cover
+        self.yields = yields                # generator functions: shape of the items (ListOf(...)) for call sites
         self.event = event                  # ghost event emitted at call sites that use the contract
         self.inline = inline                # verified, but call sites interpret the body (tiny helpers)
         self.func = None
